@@ -303,6 +303,12 @@ where
                                     &mut shift_reduce,
                                     stidx,
                                 );
+                                // %nonassoc resolves the conflict by removing the action
+                                // altogether, in which case this token no longer has an action
+                                // in this state.
+                                if actions[off] == ERROR {
+                                    state_actions.set(off, false);
+                                }
                             }
                             Action::Accept => panic!("Internal error"),
                             Action::Error => {
